@@ -345,7 +345,7 @@ func TestRealEndpoints(t *testing.T) {
 	rec := ev.New(t, prop, "endpoints-sampled", "rapid: accepted triples (values restricted to users/groups that exist here) whose merged configurations are handed to local.NewEndpoint and to a real remote.NewEndpoint <-> remote.ServeEndpoint pair over a socket pair; "+rule)
 	setupEndpointEnvironment(t)
 	_, listed := listedKnown()
-	ev.Check(t, rec, 150, 10000, func(rt *rapid.T) {
+	ev.Check(t, rec, 500, 10000, func(rt *rapid.T) {
 		c := &Case{Session: drawConf(rt, "session", false), Alpha: drawConf(rt, "alpha", true), Beta: drawConf(rt, "beta", true), Endpoints: true}
 		for i, conf := range []*Conf{&c.Session, &c.Alpha, &c.Beta} {
 			repair(rt, conf, fmt.Sprint("repair", i), i > 0)
